@@ -5,6 +5,7 @@ import (
 	"fmt"
 	"os"
 	"path/filepath"
+	"strconv"
 	"strings"
 	"sync/atomic"
 	"testing"
@@ -31,8 +32,6 @@ type outcome struct {
 	tags   []string
 	trace  []string
 	height uint64
-	// ingress level: the node was stopped while events were queued in front of the sync loop (they are lost)
-	lostQueued bool
 }
 
 func fullParams(pc *world.ProducerChain, root string) world.Params {
@@ -152,6 +151,15 @@ func bubble(c *explore.Ctx, pc *world.ProducerChain) (out outcome) {
 	return
 }
 
+func has(tags []string, t string) bool {
+	for _, x := range tags {
+		if x == t {
+			return true
+		}
+	}
+	return false
+}
+
 func TestCheck(t *testing.T) {
 	r := vf.Start("C02", "exploration")
 	if r.RunShards(16) { // bubble-heavy: one process per shard of the exploration
@@ -163,7 +171,7 @@ func TestCheck(t *testing.T) {
 		"event level: events are pushed into the real headerInCh/dataInCh one at a time and the SyncLoop runs to quiescence in between (a buffered pair consumed in either order has the same consumer-side history as one of the explored orders)",
 		"data metadata is not compared; an empty block needs only its header",
 		"producer chains are produced by a real aggregator run; executor double = hash-chain reference",
-		"ingress level: all five loops of the full node under the cooperative scheduler; blobs within <=2/3 deviations from the in-order placement on 3 DA heights; P2P stores empty or holding the chain; the sends into the sync loop's input channels are diverted into harness-side FIFOs (buffered-channel semantics) and the explorer decides at every point where an event is deliverable who goes next (a producer running ahead, the next header, the next data event; <=1/2 deviations from 'producers, headers, data') and whether the node is cleanly restarted right there (queued events are lost with the process)",
+		"ingress level: all five loops of the full node under the cooperative scheduler; blobs within <=2/3 deviations from the in-order placement on 3 DA heights; P2P stores empty or holding the chain; the sends into the sync loop's input channels are diverted into harness-side FIFOs (buffered-channel semantics) and the explorer decides at every point where an event is deliverable who goes next (a producer running ahead, the next header, the next data event; <=1/2 deviations from 'producers, headers, data') and whether the node is cleanly restarted right there — between two steps of its threads, in the middle of a tick, with the scan ahead of the sync loop: the events still queued (scanned, marked DA-included, not yet taken by the sync loop) are lost with the process, the caches are saved (SaveCache) and loaded by the next NewManager from the same directory, the store image is kept, and the DA layer is scanned again; a stop keeps nothing but store and caches, so within one tick the decision is offered once per distinct (store write log, header cache, data cache) state",
 		"custom signature payload provider: one fixed non-default provider (payload = sha256 of a tag and the header bytes, world.CustomPayloadProvider) configured on the producing aggregator and on the full node through ManagerOptions.SignaturePayloadProvider; header events carry the verifier the two ingress paths attach (block/retriever.go, block/store.go) before they push them; the statement's guarantees do not depend on which provider the chain is configured with",
 		"crowded heights: the retrieval batch size of types.RetrieveWithHelpers is taken as 100 (C09 measures it); filler blobs are short non-protobuf byte strings",
 	}
@@ -195,6 +203,8 @@ func TestCheck(t *testing.T) {
 		}
 		jobs = append(jobs, job{j.pattern, j.initial, true, b})
 	}
+	// the (small) custom-provider jobs run first so that a deadline under load never cuts them
+	jobs = append(append([]job(nil), jobs[nDefaultJobs:]...), jobs[:nDefaultJobs]...)
 	if r.ReplayPath() != "" {
 		var h struct {
 			Pattern string
@@ -225,7 +235,11 @@ func TestCheck(t *testing.T) {
 		r.Finish(vf.Coverage{Evaluations: 1, DistinctNontrivial: 1})
 		return
 	}
-	deadline := time.Now().Add(vf.Pick(r, 100*time.Second, 25*time.Minute))
+	budget := vf.Pick(r, 100*time.Second, 25*time.Minute)
+	if k, err := strconv.Atoi(os.Getenv("VERIF_C02_DEADLINE_SCALE")); err == nil && k > 1 {
+		budget *= time.Duration(k) // measuring aid for a machine that is shared with other runs (never set by ./check)
+	}
+	deadline := time.Now().Add(budget)
 	var caps []string
 	l2patterns := vf.Pick(r, []string{"ab"}, []string{"ab", "ea"})
 	// level 2, crowded heights: every (filler count, DA height, ahead) configuration; small and run first so that the deadline never cuts it
@@ -264,6 +278,45 @@ func TestCheck(t *testing.T) {
 		}
 		if st.Capped != "" {
 			caps = append(caps, "crowded ingress "+pt+": "+st.Capped)
+		}
+	}
+	var l2 explore.Stats
+	// level 2 in the configuration 'non-default signature payload provider': the real ingress loops attach the provider,
+	// the clean restart between any two steps carries whatever waits in the caches through the cache file
+	l2customBudgets := vf.Pick(r, map[string]int{"place": 0, "order": 0, "restart": 1}, map[string]int{"place": 1, "order": 1, "restart": 1})
+	var l2customRuns int64
+	for _, pt := range l2patterns {
+		pc, err := world.BuildChainCustom(pt, 1)
+		if err != nil {
+			r.EngineError(err.Error())
+			continue
+		}
+		left := time.Until(deadline)
+		if left <= 0 {
+			caps = append(caps, "deadline reached before ingress pattern "+pt+" (custom signature payload provider)")
+			break
+		}
+		st := explore.Explore(explore.Config{Budgets: l2customBudgets, Deadline: left, ShardDepth: 3}, func(c *explore.Ctx) {
+			o := ingressBody(t, c, pc, false)
+			if o.fail != nil {
+				tags := append(o.tags, "ingress-level")
+				if !has(tags, "custom-signature-payload-provider") {
+					tags = append(tags, "custom-signature-payload-provider")
+				}
+				r.Report(vf.Violation{Clause: o.fail.Clause, Tags: tags, Msg: fmt.Sprintf("[ingress level, chain genesis+%q, custom signature payload provider] %s\n %s", pt, o.fail.Msg, strings.Join(o.trace, " ")), Cost: c.Cost(), History: map[string]any{"Pattern": pt, "Initial": 1, "Ingress": true, "Custom": true, "Choices": c.Choices()}})
+				r.Outcome("L2:custom:fail:" + o.fail.Clause)
+				return
+			}
+			r.Outcome("L2:custom:" + pt + ":" + strings.Join(o.trace, " "))
+		})
+		l2customRuns += st.Executions
+		l2.Executions += st.Executions
+		l2.Points += st.Points
+		for _, m := range st.Nondet {
+			r.EngineError("nondeterminism (ingress level, custom signature payload provider): " + m)
+		}
+		if st.Capped != "" {
+			caps = append(caps, "ingress "+pt+" (custom signature payload provider): "+st.Capped)
 		}
 	}
 	for _, j := range jobs {
@@ -307,7 +360,6 @@ func TestCheck(t *testing.T) {
 	}
 	// level 2: ingress loops, DA placement, restart between any two steps
 	l2budgets := vf.Pick(r, map[string]int{"place": 1, "order": 1, "restart": 1}, map[string]int{"place": 2, "order": 1, "restart": 1})
-	var l2 explore.Stats
 	for _, pt := range l2patterns {
 		pc, err := world.BuildChain(pt, 1)
 		if err != nil {
@@ -346,8 +398,8 @@ func TestCheck(t *testing.T) {
 	total.Points += l2.Points
 	r.Finish(vf.Coverage{
 		Evaluations: total.Executions, DistinctNontrivial: int64(r.DistinctOutcomes()), States: total.Executions, Transitions: total.Points,
-		Rule:       "for every producer chain pattern over {empty, A, B} of 1..n blocks above the genesis block (incl. identical transaction lists) and two chains with initial height 3: every permutation of the header/data events, with at most one duplicated event at any later position and at most one clean stop/restart at any idle point; the same chains once more in the configuration 'non-default signature payload provider on producer and full node' (every permutation, at most one clean restart at any idle point — so every set of headers/data waiting in the caches travels through the cache file — duplicates per custom_payload_budgets); ingress level additionally in the crowded-height configuration: all genuine blobs at one DA height (each of the 3) behind N filler blobs, for every N that puts a genuine blob on an index in {b-1, b, b+1, 2b, 2b+1} of the height (b = retrieval batch size 100), scan ahead of or in step with the DA layer, DA the only ingress; distinct = distinct delivery traces",
+		Rule:       "for every producer chain pattern over {empty, A, B} of 1..n blocks above the genesis block (incl. identical transaction lists) and two chains with initial height 3: every permutation of the header/data events, with at most one duplicated event at any later position and at most one clean stop/restart at any idle point; the same chains once more in the configuration 'non-default signature payload provider on producer and full node' (every permutation, at most one clean restart at any idle point — so every set of headers/data waiting in the caches travels through the cache file — duplicates per custom_payload_budgets); ingress level (all five loops, restart between any two steps) once more with the non-default signature payload provider within ingress_custom_payload_budgets, and additionally in the crowded-height configuration: all genuine blobs at one DA height (each of the 3) behind N filler blobs, for every N that puts a genuine blob on an index in {b-1, b, b+1, 2b, 2b+1} of the height (b = retrieval batch size 100), scan ahead of or in step with the DA layer, DA the only ingress; distinct = distinct delivery traces",
 		Exhaustive: true, Caps: caps,
-		Bounds: map[string]any{"blocks_above_genesis": nAbove, "patterns": nDefaultJobs, "budgets": budgets, "custom_payload_patterns": len(jobs) - nDefaultJobs, "custom_payload_budgets": customBudgets, "custom_payload_budgets_thorough_chains_up_to_2_blocks": budgets, "custom_payload_executions_shard0": customRuns, "ingress_patterns": l2patterns, "ingress_budgets": l2budgets, "ingress_executions": l2.Executions, "ingress_crowded_budgets": crowdBudgets, "ingress_crowded_executions_shard0": crowdRuns, "ingress_crowded_configurations": crowdConfigs, "ingress_crowded_filler_counts": crowdNs, "ingress_crowded_retrieval_batch": retrievalBatch},
+		Bounds: map[string]any{"blocks_above_genesis": nAbove, "patterns": nDefaultJobs, "budgets": budgets, "custom_payload_patterns": len(jobs) - nDefaultJobs, "custom_payload_budgets": customBudgets, "custom_payload_budgets_thorough_chains_up_to_2_blocks": budgets, "custom_payload_executions_shard0": customRuns, "ingress_patterns": l2patterns, "ingress_budgets": l2budgets, "ingress_executions": l2.Executions, "ingress_custom_payload_budgets": l2customBudgets, "ingress_custom_payload_executions_shard0": l2customRuns, "ingress_crowded_budgets": crowdBudgets, "ingress_crowded_executions_shard0": crowdRuns, "ingress_crowded_configurations": crowdConfigs, "ingress_crowded_filler_counts": crowdNs, "ingress_crowded_retrieval_batch": retrievalBatch},
 	})
 }
